@@ -168,30 +168,67 @@ def run(R):
     with R.guard('C19.R3'):
         nw = refl.body('server::ReflectionServiceState::new')
         R.saw(nw)
-        ck = nw.calls(pat='HashMap', name='contains_key')
-        ins = [(bb, t) for bb, t in nw.calls(pat='HashMap', name='insert') if recv_place_fields(nw, t['args'][0])[-1:] == ['files'] or mentions_field(nw.origin(t['args'][0]), 'files')]
-        R.check(len(ck) == 1 and len(ins) == 1, 'C19.R3', 'files:contains+insert', site(nw), 'contains_key %d, insert %d' % (len(ck), len(ins)))
-        if ck and ins:
-            g = nw.edge_guards(ins[0][0])
-            R.check(any(is_call(strip_refs(tm), name='contains_key') and vals == [0] for s, vals, tm in g), 'C19.R3', 'files:skip-duplicate', site(nw, ins[0][0]), 'insert only when the file name is not present yet')
-            # a duplicate is skipped with `continue`: the same (inner) iterator is advanced next, the rest of the set is not dropped
-            nexts = [bb for bb, t in nw.calls(name='next') if nw.dominates(bb, ck[0][0])]
-            if len(nexts) >= 2:
+        is_files = lambda op_: recv_place_fields(nw, op_)[-1:] == ['files'] or mentions_field(nw.origin(op_), 'files')
+        # "register unless present", spelled contains_key + insert or entry() + VacantEntry::insert
+        ck = [(bb, t) for bb, t in nw.calls(pat='HashMap', name='contains_key') if is_files(t['args'][0])]
+        en = [(bb, t) for bb, t in nw.calls(pat='HashMap', name='entry') if is_files(t['args'][0])]
+        ins = [(bb, t, t['args'][1]) for bb, t in nw.calls(pat='HashMap', name='insert') if is_files(t['args'][0])]
+        vins = [(bb, t) for bb, t in nw.calls(name='insert') if 'VacantEntry' in (t.get('fn') or '') and term_contains(nw.origin(t['args'][0]), lambda x: is_call(x, name='entry') and 'HashMap' in x[1])]
+        form = 'contains' if (len(ck) == 1 and len(ins) == 1 and not en) else ('entry' if (len(en) == 1 and len(vins) == 1 and not ck and not ins) else None)
+        R.check(form is not None, 'C19.R3', 'files:contains+insert', site(nw), 'contains_key %d + insert %d, or entry %d + VacantEntry::insert %d' % (len(ck), len(ins), len(en), len(vins)))
+        if form:
+            test_bb, test_t = (ck[0] if form == 'contains' else en[0])
+            reg_bb = ins[0][0] if form == 'contains' else vins[0][0]
+            key = nw.origin(ins[0][2]) if form == 'contains' else nw.origin(en[0][1]['args'][1])
+
+            def absent(g_):
+                # the guard says the name is not registered yet
+                for s_, vals_, tm_ in g_:
+                    c_ = strip_refs(tm_)
+                    if form == 'contains' and is_call(c_, name='contains_key') and vals_ == [0]:
+                        return True
+                    if form == 'entry' and tm_[0] == 'discr' and is_call(strip_refs(tm_[1]), name='entry') and len(tm_) > 2 and tm_[2]:
+                        names_ = dict(tm_[2])
+                        if len(vals_) == 1 and names_.get(vals_[0]) == 'Vacant':
+                            return True
+                        if vals_ == ['else'] and [names_.get(v_) for v_, _ in nw.term(s_)['arms']] == ['Occupied']:
+                            return True
+                return False
+            R.check(absent(nw.edge_guards(reg_bb)), 'C19.R3', 'files:skip-duplicate', site(nw, reg_bb), 'insert only when the file name is not present yet')
+            # a duplicate is skipped with `continue`: the file iterator is advanced next, the remaining files are not dropped
+            nexts = [bb for bb, t in nw.calls(name='next') if nw.dominates(bb, test_bb)]
+            if len(nexts) >= 1:
                 inner = max(nexts, key=lambda x: len(nw.dominators()[x]))
                 outer = [x for x in nexts if x != inner]
-                sw = mirlib.follow_to_switch(nw, ck[0][1]['t'])
-                dup_t = [t_ for t_, vals in nw.switch_edges(sw).items() if vals == ['else'] or (0 not in vals and 'else' not in vals)]
-                okc = bool(dup_t) and inner in nw.reachable(dup_t[0], removed=set(outer))
-                R.check(okc, 'C19.R3', 'files:duplicate-continues-with-next-file', site(nw, ck[0][0]),
+                if form == 'contains':
+                    sw = mirlib.follow_to_switch(nw, test_t['t'])
+                    dup_t = [t_ for t_, vals in nw.switch_edges(sw).items() if vals == ['else'] or (0 not in vals and 'else' not in vals)]
+                else:
+                    sws = [x for x in sorted(nw.live_blocks()) if nw.term(x)['k'] == 'switch' and (lambda o_: o_[0] == 'discr' and is_call(strip_refs(o_[1]), name='entry'))(nw.origin(nw.term(x)['on']))]
+                    dup_t = []
+                    for sw in sws[:1]:
+                        o_ = nw.origin(nw.term(sw)['on'])
+                        names_ = dict(o_[2]) if len(o_) > 2 and o_[2] else {}
+                        for t_, vals in nw.switch_edges(sw).items():
+                            if (len(vals) == 1 and names_.get(vals[0]) == 'Occupied') or (vals == ['else'] and [names_.get(v_) for v_, _ in nw.term(sw)['arms']] == ['Vacant']):
+                                dup_t.append(t_)
+                okc = bool(dup_t) and inner in nw.reachable(dup_t[0], removed=set(outer) | {reg_bb})
+                R.check(okc, 'C19.R3', 'files:duplicate-continues-with-next-file', site(nw, test_bb),
                         'after a duplicate file the loop advances the same file iterator (continue): %r; a `break` drops every later file of that descriptor set' % okc)
             else:
-                R.bad('C19.R3', 'files:duplicate-continues-with-next-file', site(nw, ck[0][0]), 'expected two nested loops around the duplicate check, found %d dominating next() calls' % len(nexts), kind='UNRECOGNISED')
+                R.bad('C19.R3', 'files:duplicate-continues-with-next-file', site(nw, test_bb), 'the duplicate check is not inside a loop over the files (%d dominating next() calls)' % len(nexts), kind='UNRECOGNISED')
             pfc = nw.calls(name='process_file')
-            R.check(len(pfc) == 1 and any(is_call(strip_refs(tm), name='contains_key') and vals == [0] for s, vals, tm in nw.edge_guards(pfc[0][0])), 'C19.R3', 'files:index-once', site(nw), 'process_file only for newly inserted files')
-            key = nw.origin(ins[0][1]['args'][1])
-            R.check(mentions_field(key, 'name'), 'C19.R3', 'files:keyed-by-name', site(nw, ins[0][0]), 'key = %s' % show(key)[:80])
-        dec = nw.calls(name='decode')
-        R.check(len(dec) == 1 and len(nw.calls(name='from_residual')) >= 1, 'C19.R3', 'encoded-sets-decoded', site(nw), 'encoded sets are decoded, errors propagated')
+            R.check(len(pfc) == 1 and absent(nw.edge_guards(pfc[0][0])), 'C19.R3', 'files:index-once', site(nw), 'process_file only for newly inserted files')
+            R.check(mentions_field(key, 'name'), 'C19.R3', 'files:keyed-by-name', site(nw, reg_bb), 'key = %s' % show(key)[:80])
+        # the encoded descriptor sets are decoded (errors propagated) on the way into the state, by the constructor or by what feeds it
+        dsites = []
+        for bn in ('build_v1', 'build_v1alpha'):
+            bld = refl.body("server::Builder::<'b>::" + bn)
+            fam_b = family(refl, bld) + [x for x in family(refl, nw) if x not in family(refl, bld)]
+            d_ = [(b2, bb, t) for b2, bb, t in fam_calls(fam_b, name='decode') if 'FileDescriptorSet' in ((t.get('self_ty') or '') + (t.get('fn') or '') + ' '.join(t.get('ga') or []))]
+            dsites.append(len(d_) == 1 and len(d_[0][0].calls(name='from_residual')) >= 1 and (d_[0][0] is nw or mentions_field(resolve_env(refl, d_[0][0], d_[0][0].origin(d_[0][2]['args'][0])), 'encoded_file_descriptor_sets')
+                                                                                          or bool(find_terms(d_[0][0].origin(d_[0][2]['args'][0]), lambda x: is_call(x, name='next')))))
+        R.check(all(dsites), 'C19.R3', 'encoded-sets-decoded', site(nw), 'encoded sets are decoded, errors propagated (per builder: %r)' % dsites)
         for fn, fld in (('file_by_filename', 'files'), ('symbol_by_name', 'symbols')):
             b = refl.body('server::ReflectionServiceState::' + fn)
             R.saw(b)
@@ -234,8 +271,26 @@ def run(R):
             bb_ = refl.body("server::Builder::<'b>::" + bn)
             R.saw(bb_)
             c = bb_.calls(pat='ReflectionServiceState::new')
-            okc = len(c) == 1 and [field_names(bb_.origin(a))[-1:] for a in c[0][1]['args']] == [['service_names'], ['encoded_file_descriptor_sets'], ['file_descriptor_sets'], ['use_all_service_names']]
-            R.check(okc, 'C19.R4', '%s:state-args' % bn, site(bb_), 'ReflectionServiceState::new(service_names, encoded.., sets, use_all): %r' % okc)
+            okc = False
+            if len(c) == 1:
+                # which Builder field feeds which parameter of the constructor, and what the constructor does with that parameter
+                fmap = callsite_field_map(refl, bb_, c[0][1])
+                nwb = refl.body('server::ReflectionServiceState::new')
+                by_field = {v_: k_ for k_, v_ in fmap.items() if not k_[1]}
+                ag_ = mirlib.aggregates(nwb, 'server::ReflectionServiceState')
+                sn_ok = 'service_names' in by_field and len(ag_) == 1 and strip_refs(nwb.origin(ag_[0][4][ag_[0][3]['fields'].index('service_names')]))[:2] == ('arg', by_field['service_names'][0])
+                pfc_ = nwb.calls(name='process_file')
+                pfb_ = refl.body('server::ReflectionServiceState::process_file')
+                fl_ok = 'use_all_service_names' in by_field and len(pfc_) == 1 and strip_refs(nwb.origin(pfc_[0][1]['args'][param_of_type(pfb_, r'^bool$') - 1]))[:2] == ('arg', by_field['use_all_service_names'][0])
+                # both kinds of registered sets reach the constructor (as arguments, or consumed while its argument is built)
+                used = set(fmap.values())
+                for b2 in family(refl, bb_):
+                    for bb2, t2 in b2.calls():
+                        for a2 in t2['args']:
+                            fn2 = field_names(resolve_env(refl, b2, b2.origin(a2)))
+                            used.update(x for x in fn2 if x in ('file_descriptor_sets', 'encoded_file_descriptor_sets'))
+                okc = sn_ok and fl_ok and {'file_descriptor_sets', 'encoded_file_descriptor_sets'} <= used
+            R.check(okc, 'C19.R4', '%s:state-args' % bn, site(bb_), 'the constructor receives service_names (stored), use_all_service_names (handed to process_file) and both kinds of descriptor sets: %r' % okc)
 
     # ---------------------------------------------------------------- R5 v1 ≅ v1alpha
     R.describe('C19.R5', 'server::v1 and server::v1alpha are isomorphic: same bodies, same calls, and the same request dispatch table (FileByFilename -> file_by_filename, FileContainingSymbol -> symbol_by_name, ListServices -> list_services, ...)')
